@@ -1,6 +1,6 @@
 SPECIFICATION Spec
 CONSTANT MaxApp = 5
-CONSTANT MaxWire = 5
+CONSTANT MaxWire = 4
 VIEW View
 INVARIANT RefInv
 INVARIANT SenderInv
